@@ -1649,6 +1649,10 @@ class Walker:
                             self.env[nm] = ir.subst(self.env[nm], lambda x: ('last', x) if x[0] == 'idx' and x[1] in gen_loops else None)
                 return
         it = self.ex(st.iter)
+        # iterating a snapshot (`tuple(X)` / `list(X)`) visits what iterating X visits, in the same order
+        while it[0] == 'call' and it[1] in (('name', 'tuple'), ('name', 'list')) and len(it[2]) == 1 and not it[3] and \
+                it[2][0][0] in ('call', 'attr', 'sub'):
+            it = it[2][0]
         # loop fission: a second loop over the same (pure, self-derived) iterable in the same generation context walks
         # the same iteration space, so it shares the first loop's identity
         key = None
